@@ -92,10 +92,29 @@ func match(policyNamespace string, rule *proto.Rule, req *requestCache) bool {
 			"HttpPath":   req.GetHttpPath(),
 		}).Debug("Checking rule on request")
 	}
-	return matchSource(policyNamespace, rule, req) &&
+	return matchIPVersion(rule, req) &&
+		matchSource(policyNamespace, rule, req) &&
 		matchDestination(policyNamespace, rule, req) &&
 		matchRequest(rule, req) &&
 		matchL4Protocol(rule, int32(req.GetProtocol()))
+}
+
+// matchIPVersion checks the rule's ip_version, if any, against the address family of the flow. The
+// packet-filtering dataplanes render a rule only for its own IP version.
+func matchIPVersion(rule *proto.Rule, req *requestCache) bool {
+	ipv := rule.GetIpVersion()
+	if ipv != proto.IPVersion_IPV4 && ipv != proto.IPVersion_IPV6 {
+		return true
+	}
+	addr := req.GetDestIP()
+	if addr == nil {
+		addr = req.GetSourceIP()
+	}
+	if addr == nil {
+		return true
+	}
+	isV4 := addr.To4() != nil
+	return isV4 == (ipv == proto.IPVersion_IPV4)
 }
 
 // matchSource checks if the source part of the Rule matches the request. It returns true if the
@@ -548,20 +567,21 @@ func matchIPSetsNotAny(ids []string, ipsSetFunc func(string) policystore.IPSet, 
 // matchDstPort checks if the destination port is within the port ranges and named port sets. It
 // also checks if the destination port is not within the not port ranges and named port sets.
 func matchDstPort(r *proto.Rule, req *requestCache) bool {
-	return matchPort("dst", r.GetDstPorts(), r.GetDstNamedPortIpSetIds(), req.getIPSet, req.GetDestPort()) &&
-		matchNotPort("dst", r.GetNotDstPorts(), r.GetNotDstNamedPortIpSetIds(), req.getIPSet, req.GetDestPort())
+	return matchPort("dst", r.GetDstPorts(), r.GetDstNamedPortIpSetIds(), req.getIPSet, req.GetDestPort(), req.getDstIPProtoPortStr) &&
+		matchNotPort("dst", r.GetNotDstPorts(), r.GetNotDstNamedPortIpSetIds(), req.getIPSet, req.GetDestPort(), req.getDstIPProtoPortStr)
 }
 
 // matchSrcPort checks if the source port is within the port ranges and named port sets. It also
 // checks if the source port is not within the not port ranges and named port sets.
 func matchSrcPort(r *proto.Rule, req *requestCache) bool {
-	return matchPort("src", r.GetSrcPorts(), r.GetSrcNamedPortIpSetIds(), req.getIPSet, req.GetSourcePort()) &&
-		matchNotPort("src", r.GetNotSrcPorts(), r.GetNotSrcNamedPortIpSetIds(), req.getIPSet, req.GetSourcePort())
+	return matchPort("src", r.GetSrcPorts(), r.GetSrcNamedPortIpSetIds(), req.getIPSet, req.GetSourcePort(), req.getSrcIPProtoPortStr) &&
+		matchNotPort("src", r.GetNotSrcPorts(), r.GetNotSrcNamedPortIpSetIds(), req.getIPSet, req.GetSourcePort(), req.getSrcIPProtoPortStr)
 }
 
 // matchPort checks if the port is within the port ranges and named port sets. It returns true if
-// the port matches, false otherwise.
-func matchPort(dir string, ranges []*proto.PortRange, namedPortSets []string, ipsSetFunc func(string) policystore.IPSet, port int) bool {
+// the port matches, false otherwise. The members of a named port set are "<IP>,<protocol>:<port>"
+// strings; memberKey returns that key for the side of the flow being matched.
+func matchPort(dir string, ranges []*proto.PortRange, namedPortSets []string, ipsSetFunc func(string) policystore.IPSet, port int, memberKey func() string) bool {
 	if log.IsLevelEnabled(log.DebugLevel) {
 		log.WithFields(log.Fields{
 			"ranges":        ranges,
@@ -580,8 +600,7 @@ func matchPort(dir string, ranges []*proto.PortRange, namedPortSets []string, ip
 		}
 	}
 	for _, id := range namedPortSets {
-		portStr := fmt.Sprintf("%d", port)
-		if s := ipsSetFunc(id); s != nil && s.Contains(portStr) {
+		if s := ipsSetFunc(id); s != nil && s.Contains(memberKey()) {
 			return true
 		}
 	}
@@ -590,7 +609,7 @@ func matchPort(dir string, ranges []*proto.PortRange, namedPortSets []string, ip
 
 // matchNotPort checks if the port is not within the port ranges and named port sets. It returns
 // true if the port matches, false otherwise.
-func matchNotPort(dir string, ranges []*proto.PortRange, namedPortSets []string, ipsSetFunc func(string) policystore.IPSet, port int) bool {
+func matchNotPort(dir string, ranges []*proto.PortRange, namedPortSets []string, ipsSetFunc func(string) policystore.IPSet, port int, memberKey func() string) bool {
 	if log.IsLevelEnabled(log.DebugLevel) {
 		log.WithFields(log.Fields{
 			"ranges":        ranges,
@@ -609,8 +628,7 @@ func matchNotPort(dir string, ranges []*proto.PortRange, namedPortSets []string,
 		}
 	}
 	for _, id := range namedPortSets {
-		portStr := fmt.Sprintf("%d", port)
-		if s := ipsSetFunc(id); s != nil && s.Contains(portStr) {
+		if s := ipsSetFunc(id); s != nil && s.Contains(memberKey()) {
 			return false
 		}
 	}
